@@ -45,7 +45,7 @@ def _twin_fn(fn, prop):
 
 
 def write_replay(v, twin=False):
-    d = os.path.join(ROOT, 'replays', v['property'])
+    d = os.path.join(os.environ.get('VFW_OUT', ROOT), 'replays', v['property'])
     os.makedirs(d, exist_ok=True)
     body = dict(property=v['property'], clause=v['clause'], template=v['template'], cfg=v['cfg'], model=v['model'],
                 twin=twin, info=v.get('info'), trace=v.get('trace'), path_condition=v.get('path_condition'))
@@ -227,8 +227,9 @@ def cmd_run(pid, tier, seed):
         wall_s=round(wall, 2),
         violations=len(violation_lines),
     )
-    os.makedirs(os.path.join(ROOT, 'evidence'), exist_ok=True)
-    with open(os.path.join(ROOT, 'evidence', f'{pid}.json'), 'w') as f:
+    evdir = os.path.join(os.environ.get('VFW_OUT', ROOT), 'evidence')
+    os.makedirs(evdir, exist_ok=True)
+    with open(os.path.join(evdir, f'{pid}.json'), 'w') as f:
         json.dump(ev, f, indent=1, default=str)
     print(f'{pid} tier={tier} jobs={len(jobs)} regions={regions} classes={n_classes} obligations={ev["coverage"]["obligations"]} '
           f'violations={len(violation_lines)} known={len(seen)} inconclusive={len(errors)} wall={wall:.1f}s')
